@@ -40,6 +40,8 @@ def main():
         sh(["git", "checkout", "--", "."]); sh(["git", "clean", "-fdq"])
         clean_ok, clean_out = demo(d)
         a = sh(["git", "apply", os.path.join(d, "patch.diff")])
+        if a.returncode != 0:
+            a = sh(["patch", "-p1", "-F3", "--no-backup-if-mismatch", "-i", os.path.join(d, "patch.diff")])
         t = sh(["cargo", "test", "--workspace", "--offline"])
         suite_ok = t.returncode == 0
         patched_ok, patched_out = demo(d)
